@@ -1033,7 +1033,8 @@ public:
       {
          clear(rhs.size());
 
-         if(rhs.size() > 0)
+         /* a set of empty vectors uses no nonzero memory but still has vectors */
+         if(rhs.size() > 0 || rhs.num() > 0)
          {
             SVSetBaseArray::operator=(rhs);
             set = rhs.set;
@@ -1069,7 +1070,7 @@ public:
       {
          clear(rhs.size());
 
-         if(rhs.size() > 0)
+         if(rhs.size() > 0 || rhs.num() > 0)
             this->add(rhs);
       }
 
